@@ -130,6 +130,10 @@ pub struct Case {
     pub faults: bool,
     #[serde(default)]
     pub via_entry: bool,
+    /// an inert DEBUG trap (`trap ": dbg" DEBUG`) is set before the program: it fires, and its
+    /// handler frame comes and goes, around every command, including those of other handlers
+    #[serde(default)]
+    pub debug_inert: bool,
     pub cfg: SimConfig,
 }
 
@@ -262,6 +266,9 @@ pub fn render(case: &Case) -> (String, Vec<(String, String)>) {
     let mut r = Renderer { next: 0, files: vec![] };
     let mut s = r.block(&case.program);
     s.push('\n');
+    if case.debug_inert {
+        s.insert_str(0, "trap \": dbg\" DEBUG\n");
+    }
     (s, r.files)
 }
 
@@ -839,7 +846,8 @@ impl C16 {
             };
         }
         let via_entry = rng.below(3) == 0;
-        Case { class, program, front_end, faults, via_entry, cfg }
+        let debug_inert = rng.below(6) == 0;
+        Case { class, program, front_end, faults, via_entry, debug_inert, cfg }
     }
 }
 
@@ -1291,6 +1299,11 @@ impl Check for C16 {
             d.faults = false;
             out.push(d);
         }
+        if c.debug_inert {
+            let mut d = c.clone();
+            d.debug_inert = false;
+            out.push(d);
+        }
         if c.front_end != FrontEnd::DashC {
             let mut d = c.clone();
             d.front_end = FrontEnd::DashC;
@@ -1305,7 +1318,7 @@ impl Check for C16 {
         out.into_iter().filter_map(|c| serde_json::to_value(c).ok()).collect()
     }
     fn rule(&self) -> String {
-        "seeded programs from a control-flow grammar (if/for/function/eval/sourced file/brace group/subshell/command substitution/background job, probes and status-setting leaves; EXIT trap set/replaced/removed at seeded points with handlers that only probe, fail, call a function, remove or reinstall themselves, print, or `exit m`; ERR traps that clobber or fail) with one termination cause planted at a seeded executed step (exit n / exit, errexit, nounset, ${x?}, redirect error, unknown command, end of script), through the -c / script-file / stdin front-ends; fault-free runs are compared with a reference interpreter (probe sequence, $? at every probe, handler's $?, final status, stdout); in the fault class every position of {stdout/stderr write failing from the k-th on with EPIPE/ENOSPC/EIO, k-th open failing, k-th pipe() failing, stdin EINTR, stdin ending at every line boundary} observed in the fault-free run is injected and judged observationally (handler exactly once iff registered, last, nothing printed after it, final status = status the handler saw unless it exits); non-trivial = an EXIT handler is registered at termination; distinct = distinct (script, front-end)".into()
+        "seeded programs from a control-flow grammar (if/for/function/eval/sourced file/brace group/subshell/command substitution/background job, probes and status-setting leaves; EXIT trap set/replaced/removed at seeded points with handlers that only probe, fail, call a function, remove or reinstall themselves, print, or `exit m`; ERR traps that clobber or fail) with one termination cause planted at a seeded executed step (exit n / exit, errexit, nounset, ${x?}, redirect error, unknown command, end of script), through the -c / script-file / stdin front-ends, one case in six with an inert DEBUG trap set before the program (a second handler nested around every command, including those of the EXIT and ERR handlers); fault-free runs are compared with a reference interpreter (probe sequence, $? at every probe, handler's $?, final status, stdout); in the fault class every position of {stdout/stderr write failing from the k-th on with EPIPE/ENOSPC/EIO, k-th open failing, k-th pipe() failing, stdin EINTR, stdin ending at every line boundary} observed in the fault-free run is injected and judged observationally (handler exactly once iff registered, last, nothing printed after it, final status = status the handler saw unless it exits); non-trivial = an EXIT handler is registered at termination; distinct = distinct (script, front-end)".into()
     }
     fn components(&self) -> Value {
         json!({
